@@ -344,9 +344,11 @@ Fixpoint exec_m (fuel : nat) (Lf : layout) (arg : value) (st : mstate) (body : l
 (* ---- the driver loop (driver/src/api/repl.rs) and host calls ------------------------------------- *)
 (* a module loaded by `needs`: its top-level unit, and the by-name registration of its exports
    (alias := value of name) *)
-(* mu_run = false: the module was loaded by an earlier input of the session (the loader's memo lives as
-   long as the session, 6a174a4): its top level does not run again, only the exports are registered *)
-Record munit := mkMU { mu_run : bool; mu_layout : layout; mu_body : list instr; mu_exports : list (N * N) }.
+(* mu_id: which module (the file the import resolves to).  A module that an earlier input of the session loaded
+   is in the session's memo (6a174a4): its top level does not run again, only the exports are registered.
+   mu_fails: the import cannot be loaded (no such module, a module that does not compile): the loader returns an
+   error before anything of it runs. *)
+Record munit := mkMU { mu_id : N; mu_fails : bool; mu_layout : layout; mu_body : list instr; mu_exports : list (N * N) }.
 
 Inductive step :=
 | SInput (imports : list munit) (compiles : bool) (L : layout) (body : list instr)
@@ -354,8 +356,8 @@ Inductive step :=
 | SHost (n : N) (nargs : N) (arg : value)
 | SSet (n : N) (v : value).                      (* the host binds a global by name: VM::set_global *)
 
-Record dstate := mkD { d_vm : mstate; d_known : list N; d_mut : list (N * bool) }.
-Record xstate := mkX { x_s : sstate; x_taint : list N; x_known : list N; x_mut : list (N * bool) }.
+Record dstate := mkD { d_vm : mstate; d_known : list N; d_mut : list (N * bool); d_loaded : list N (* the memo *) }.
+Record xstate := mkX { x_s : sstate; x_taint : list N; x_known : list N; x_mut : list (N * bool); x_loaded : list N }.
 
 Definition names_of_layout (L : layout) : list N :=
   flat_map (fun o => match o with Some n => [n] | None => [] end) L.
@@ -368,18 +370,20 @@ Definition run_unit (fuel : nat) (vm : mstate) (L : layout) (body : list instr) 
   | _ => ((if RUN_FAST_UNWINDS_ON_ERROR then with_frames vm1 (unwind (frames vm1)) else vm1), out, s)
   end.
 
-Fixpoint load_modules (fuel : nat) (vm : mstate) (ms : list munit) : mstate * list Z * status :=
+Fixpoint load_modules (fuel : nat) (vm : mstate) (loaded : list N) (ms : list munit) : mstate * list N * list Z * status :=
   match ms with
-  | [] => (vm, [], SOk)
+  | [] => (vm, loaded, [], SOk)
   | m :: r =>
-      let '(vm1, out, s) := if mu_run m then run_unit fuel vm (mu_layout m) (mu_body m) else (vm, [], SOk) in
+      if mu_fails m then (vm, loaded, [], SErr) else
+      let run := negb (memb (mu_id m) loaded) in
+      let '(vm1, out, s) := if run then run_unit fuel vm (mu_layout m) (mu_body m) else (vm, [], SOk) in
       match s with
       | SOk =>
           (* vm.sync_globals_to_hashmap(names); register_exports: set_global(alias, get_global(name)) *)
-          let vm2 := if MODULE_SYNCS_BEFORE_EXPORTS && mu_run m then sync_loaded vm1 else vm1 in
+          let vm2 := if MODULE_SYNCS_BEFORE_EXPORTS && run then sync_loaded vm1 else vm1 in
           let vm3 := fold_left (fun v e => set_name v (fst e) (glookup (gmap v) (snd e))) (mu_exports m) vm2 in
-          let '(vm4, out2, s2) := load_modules fuel vm3 r in (vm4, out ++ out2, s2)
-      | _ => (vm1, out, s)
+          let '(vm4, l4, out2, s2) := load_modules fuel vm3 (if run then mu_id m :: loaded else loaded) r in (vm4, l4, out ++ out2, s2)
+      | _ => (vm1, loaded, out, s)
       end
   end.
 
@@ -387,20 +391,21 @@ Definition mstep (fuel : nat) (d : dstate) (st : step) : dstate * list Z * statu
   match st with
   | SInput imports compiles L body newmut imported =>
       let vm0 := if REPL_CLEARS_FRAMES_FIRST then with_frames (d_vm d) [] else d_vm d in   (* vm.clear_frames() *)
-      let '(vm1, out1, s1) := load_modules fuel vm0 imports in                (* load_modules_for_program *)
+      let '(vm1, l1, out1, s1) := load_modules fuel vm0 (d_loaded d) imports in   (* load_modules_with_memo *)
       match s1 with
       | SOk =>
           if negb compiles then                                               (* type inference / compile_typed returned Err *)
-            (mkD vm1 (if REPL_RECORDS_IMPORTS_AFTER_COMPILE then d_known d else imported ++ d_known d) (d_mut d), out1, SErr)
+            (mkD vm1 (if REPL_RECORDS_IMPORTS_AFTER_COMPILE then d_known d else imported ++ d_known d) (d_mut d) l1, out1, SErr)
           else
             let known1 := imported ++ d_known d in                            (* recorded once the input is accepted *)
             let mut1 := newmut ++ d_mut d in                                  (* update_global_mutability *)
             let '(vm2, out2, s2) := run_unit fuel vm1 L body in               (* alloc_function; execute *)
             match s2 with
-            | SOk => (mkD (if REPL_SYNCS_AFTER_SUCCESSFUL_RUN then sync_loaded vm2 else vm2) (names_of_layout L ++ known1) mut1, out1 ++ out2, SOk)
-            | _ => (mkD vm2 known1 mut1, out1 ++ out2, s2)
+            | SOk => (mkD (if REPL_SYNCS_AFTER_SUCCESSFUL_RUN then sync_loaded vm2 else vm2) (names_of_layout L ++ known1) mut1 l1, out1 ++ out2, SOk)
+            | _ => (mkD vm2 known1 mut1 l1, out1 ++ out2, s2)
             end
-      | _ => (mkD vm1 (d_known d) (d_mut d), out1, s1)
+      (* loading failed: the session still gets its memo back, with every module that was initialised before the failure (dedf19d) *)
+      | _ => (mkD vm1 (d_known d) (d_mut d) (if REPL_KEEPS_MODULE_MEMO_ON_FAILED_LOAD then l1 else []), out1, s1)
       end
   | SHost n nargs arg =>
       (* call_function_by_name: the name is looked up in the by-name map *)
@@ -411,13 +416,13 @@ Definition mstep (fuel : nat) (d : dstate) (st : step) : dstate * list Z * statu
               match lookup fid C with
               | Some fd =>
                   if negb (fd_arity fd =? nargs) then                            (* checked before anything is prepared *)
-                    (mkD (if HOST_CALL_CHECKS_ARITY_FIRST then d_vm d else prepare (d_vm d) (fd_layout fd)) (d_known d) (d_mut d), [], SErr) else
+                    (mkD (if HOST_CALL_CHECKS_ARITY_FIRST then d_vm d else prepare (d_vm d) (fd_layout fd)) (d_known d) (d_mut d) (d_loaded d), [], SErr) else
                   let vm0 := prepare (d_vm d) (fd_layout fd) in                 (* no copy-back here *)
                   let vm1 := with_frames vm0 (mkFrame (fd_layout fd) true :: frames vm0) in
                   let '(vm2, out, s) := exec_m fuel (fd_layout fd) arg vm1 (fd_body fd) in
                   match s with
-                  | SOk => (mkD (do_return vm2) (d_known d) (d_mut d), out, SOk)
-                  | _ => (mkD (if RUN_FAST_UNWINDS_ON_ERROR then with_frames vm2 (unwind (frames vm2)) else vm2) (d_known d) (d_mut d), out, s)
+                  | SOk => (mkD (do_return vm2) (d_known d) (d_mut d) (d_loaded d), out, SOk)
+                  | _ => (mkD (if RUN_FAST_UNWINDS_ON_ERROR then with_frames vm2 (unwind (frames vm2)) else vm2) (d_known d) (d_mut d) (d_loaded d), out, s)
                   end
               | None => (d, [], SErr)
               end
@@ -426,26 +431,28 @@ Definition mstep (fuel : nat) (d : dstate) (st : step) : dstate * list Z * statu
           end
       | _ => (d, [], SErr)
       end
-  | SSet n v => (mkD (set_name (d_vm d) n v) (d_known d) (d_mut d), [], SOk)
+  | SSet n v => (mkD (set_name (d_vm d) n v) (d_known d) (d_mut d) (d_loaded d), [], SOk)
   end.
 
 (* ---- the same session on the by-name store ------------------------------------------------------- *)
 Definition to_status (x : xstatus) : status :=
   match x with XOk => SOk | XErr => SErr | XFuel => SFuel | XBad => SBad | XTaint => SBad end.
 
-Fixpoint load_modules_s (fuel : nat) (T : list N) (s : sstate) (W : list N) (ms : list munit)
-  : sstate * list N * list Z * xstatus :=
+Fixpoint load_modules_s (fuel : nat) (T : list N) (s : sstate) (W : list N) (loaded : list N) (ms : list munit)
+  : sstate * list N * list N * list Z * xstatus :=
   match ms with
-  | [] => (s, W, [], XOk)
+  | [] => (s, W, loaded, [], XOk)
   | m :: r =>
-      let '(s1, W1, out, st) := if mu_run m then exec_s fuel 1 T (mu_layout m) VNull s W (mu_body m) else (s, W, [], XOk) in
+      if mu_fails m then (s, W, loaded, [], XErr) else
+      let run := negb (memb (mu_id m) loaded) in
+      let '(s1, W1, out, st) := if run then exec_s fuel 1 T (mu_layout m) VNull s W (mu_body m) else (s, W, [], XOk) in
       match st with
       | XOk =>
-          if existsb (fun e => memb (snd e) T) (mu_exports m) then (s1, W1, out, XTaint) else
+          if existsb (fun e => memb (snd e) T) (mu_exports m) then (s1, W1, loaded, out, XTaint) else
           let s2 := fold_left (fun x e => mkS ((fst e, sget (s_store x) (snd e)) :: s_store x) (s_heap x) (s_next x)) (mu_exports m) s1 in
           let W2 := map fst (mu_exports m) ++ W1 in
-          let '(s3, W3, out2, st2) := load_modules_s fuel T s2 W2 r in (s3, W3, out ++ out2, st2)
-      | _ => (s1, W1, out, st)
+          let '(s3, W3, l3, out2, st2) := load_modules_s fuel T s2 W2 (if run then mu_id m :: loaded else loaded) r in (s3, W3, l3, out ++ out2, st2)
+      | _ => (s1, W1, loaded, out, st)
       end
   end.
 
@@ -453,19 +460,19 @@ Fixpoint load_modules_s (fuel : nat) (T : list N) (s : sstate) (W : list N) (ms 
 Definition xstep (fuel : nat) (x : xstate) (st : step) : xstate * list Z * xstatus :=
   match st with
   | SInput imports compiles L body newmut imported =>
-      let '(s1, W1, out1, st1) := load_modules_s fuel (x_taint x) (x_s x) [] imports in
+      let '(s1, W1, l1, out1, st1) := load_modules_s fuel (x_taint x) (x_s x) [] (x_loaded x) imports in
       match st1 with
       | XOk =>
-          if negb compiles then (mkX s1 (x_taint x) (x_known x) (x_mut x), out1, XErr)
+          if negb compiles then (mkX s1 (x_taint x) (x_known x) (x_mut x) l1, out1, XErr)
           else
             let known1 := imported ++ x_known x in
             let mut1 := newmut ++ x_mut x in
             let '(s2, W2, out2, st2) := exec_s fuel 1 (x_taint x) L VNull s1 W1 body in
             match st2 with
-            | XOk => (mkX s2 (x_taint x) (names_of_layout L ++ known1) mut1, out1 ++ out2, XOk)
-            | _ => (mkX s2 (W2 ++ x_taint x) known1 mut1, out1 ++ out2, st2)
+            | XOk => (mkX s2 (x_taint x) (names_of_layout L ++ known1) mut1 l1, out1 ++ out2, XOk)
+            | _ => (mkX s2 (W2 ++ x_taint x) known1 mut1 l1, out1 ++ out2, st2)
             end
-      | _ => (mkX s1 (W1 ++ x_taint x) (x_known x) (x_mut x), out1, st1)
+      | _ => (mkX s1 (W1 ++ x_taint x) (x_known x) (x_mut x) l1, out1, st1)
       end
   | SHost n nargs arg =>
       if memb n (x_taint x) then (x, [], XTaint) else
@@ -478,8 +485,8 @@ Definition xstep (fuel : nat) (x : xstate) (st : step) : xstate * list Z * xstat
                   if negb (fd_arity fd =? nargs) then (x, [], XErr) else
                   let '(s1, W1, out, st1) := exec_s fuel 1 (x_taint x) (fd_layout fd) arg (x_s x) [] (fd_body fd) in
                   match st1 with
-                  | XOk => (mkX s1 (x_taint x) (x_known x) (x_mut x), out, XOk)
-                  | _ => (mkX s1 (W1 ++ x_taint x) (x_known x) (x_mut x), out, st1)
+                  | XOk => (mkX s1 (x_taint x) (x_known x) (x_mut x) (x_loaded x), out, XOk)
+                  | _ => (mkX s1 (W1 ++ x_taint x) (x_known x) (x_mut x) (x_loaded x), out, st1)
                   end
               | None => (x, [], XErr)
               end
@@ -488,7 +495,7 @@ Definition xstep (fuel : nat) (x : xstate) (st : step) : xstate * list Z * xstat
           end
       | _ => (x, [], XErr)
       end
-  | SSet n v => (mkX (mkS ((n, v) :: s_store (x_s x)) (s_heap (x_s x)) (s_next (x_s x))) (x_taint x) (x_known x) (x_mut x), [], XOk)
+  | SSet n v => (mkX (mkS ((n, v) :: s_store (x_s x)) (s_heap (x_s x)) (s_next (x_s x))) (x_taint x) (x_known x) (x_mut x) (x_loaded x), [], XOk)
   end.
 
 Fixpoint msession (fuel : nat) (d : dstate) (steps : list step) : list (list Z * status) :=
@@ -519,8 +526,8 @@ Fixpoint xfinal (fuel : nat) (x : xstate) (steps : list step) : xstate :=
 End WithCode.
 
 Definition minit : mstate := mkM [] [] [] [] [] [] 1.
-Definition dinit : dstate := mkD minit [] [].
-Definition xinit : xstate := mkX (mkS [] [] 1) [] [] [].
+Definition dinit : dstate := mkD minit [] [] [].
+Definition xinit : xstate := mkX (mkS [] [] 1) [] [] [] [].
 
 (* ---- decidable well-formedness of the inputs (layouts have pairwise distinct names; export aliases) ---- *)
 Fixpoint nodupb (L : layout) : bool :=
